@@ -221,6 +221,10 @@ def gen_and_run(rng, maxlen, sizes):
         lay = do("layout", "stats").split(None, 2)
         if lay[0] == "layout" and lay[1] != "0":
             fails.append(("C20", len(ops) - 1, "%s blocks were released with a size/alignment other than the one they were obtained with (%s)" % (lay[1], lay[2] if len(lay) > 2 else "")))
+        lk = do("leaks").split()
+        if lk[0] == "leaks" and lk[1] != "0":
+            fails.append(("C20", len(ops) - 1, "%s of the %s blocks that left the allocator's owner lists during this history were never handed back to the system "
+                          "allocator (%s)" % (lk[1], lk[3], " ".join(lk[4:]))))
         for x in sorted(reach2)[:6]:
             o = do("read %d" % x)
             ob = sim.objs[x]
@@ -290,7 +294,8 @@ def run_stream(ctx, nseq, maxlen, focus):
             t = x.split()
             return " ".join([t[0], t[1], t[3]]) if len(t) == 4 and t[0] == "new" else x
         for i, (a, b) in enumerate(zip(mo, outs)):
-            if norm(a) != norm(b) and not ops[i] == "layout":
+            # the release log (`leaks`) is C20's part of the tie: the model's count of dropped blocks, none outstanding
+            if norm(a) != norm(b) and not ops[i] == "layout" and not (ops[i] == "leaks" and focus != "C20"):
                 bad = i
                 break
         if bad is None and len(mo) != len(outs):
